@@ -236,6 +236,14 @@ class World:
         ev["c"] = c.idx
         patience = op.get("patience", 0.05)
         t0 = self.now
+        if op.get("cancel_after") is not None:
+            # consume() interrupted by task cancellation after k loop steps: whatever it had taken must not be lost
+            done, msg = await self.call(c.obj.consume(), op["cancel_after"])
+            if not done:
+                ev["cancelled"] = True
+                return
+            self.handover(c, msg, ev, t0)
+            return
         try:
             msg = await asyncio.wait_for(c.obj.consume(), timeout=patience)
         except asyncio.TimeoutError:
